@@ -223,6 +223,7 @@ KEY_FIELDS = {'_comment': 'opt[bytes]', 'pem_name': 'bytes', 'pkcs8_oid': 'any',
 def encode_pkcs8_stub(cx):
     """(alg_params | OMIT, key bytes): both shapes occur (RSA has NULL parameters, Ed25519 omits them)"""
     return [Out(ret=VTuple([VTag('class:OMIT'), cx.fresh('bytes', 'pkcs8_data')])),
+            Out(ret=VTuple([VNone, cx.fresh('bytes', 'pkcs8_data')])),      # parameters NULL (rsaEncryption, RFC 3279 2.3.1)
             Out(ret=VTuple([cx.fresh('any', 'alg_params'), cx.fresh('bytes', 'pkcs8_data')]))]
 
 
@@ -806,7 +807,10 @@ b2a_base64_stub.modifies = ()
 
 
 def encode_pkcs8_public_stub(cx):
+    # three shapes of AlgorithmIdentifier.parameters: absent (EdDSA, RFC 8410 3), NULL = Python None (rsaEncryption,
+    # RFC 3279 2.3.1: "the parameters field MUST have ASN.1 type NULL"), a value (EC curve OID, DSA p/q/g)
     return [Out(ret=VTuple([VTag('class:OMIT'), cx.fresh('bytes', 'spki_key')])),
+            Out(ret=VTuple([VNone, cx.fresh('bytes', 'spki_key')])),
             Out(ret=VTuple([cx.fresh('any', 'alg_params'), cx.fresh('bytes', 'spki_key')]))]
 
 
@@ -1158,6 +1162,45 @@ def bounded_text_round_trip(tier):
             'what': 'comments with quotes, backslashes, colons, blanks inside, non-UTF-8 bytes; every padding residue'}
 
 
+def bounded_pbkdf1(tier):
+    """OpenSSL EVP_BytesToKey (the legacy PEM / RFC 1423 key derivation, = PKCS#5 PBKDF1 for one block):
+    D_1 = H^count(pass || salt), D_i = H^count(D_{i-1} || pass || salt), key = first n bytes of D_1 || D_2 || ...
+    compared with the current source of pbe._pbkdf1 on real hashes, for every key length up to two digests (the
+    registered PKCS#1 ciphers need at most 32 bytes from MD5) - reference implementation written from the recurrence"""
+    import hashlib
+    ns = _exec_segments('pbe', ['_pbkdf1'])
+    kdf = ns['_pbkdf1']
+
+    def evp(h, pw, salt, count, n):
+        d, out = b'', b''
+        while len(out) < n:
+            x = d + pw + salt
+            for _ in range(count):
+                x = h(x).digest()
+            d = x
+            out += d
+        return out[:n]
+    bad, cases = [], 0
+    for h in (hashlib.md5, hashlib.sha1):
+        dl = h().digest_size
+        for pw in (b'', b'passphrase', b'p\xc3\xa4ssword', bytes(range(70))):
+            for salt in (b'', b'12345678', b'\x00' * 8):
+                for count in (1, 2, 5):
+                    for n in range(0, 2 * dl + 1):
+                        cases += 1
+                        try:
+                            ok = kdf(h, pw, salt, count, n) == evp(h, pw, salt, count, n)
+                        except Exception:      # noqa
+                            ok = False
+                        if not ok and len(bad) < 5:
+                            bad.append({'hash': h().name, 'passphrase': pw.hex(), 'salt': salt.hex(), 'count': count, 'n': n})
+    # OpenSSL test vector: EVP_BytesToKey(aes-256-cbc, md5, salt 0102030405060708, "password", 1)
+    vec = kdf(hashlib.md5, b'password', bytes(range(1, 9)), 1, 32) == evp(hashlib.md5, b'password', bytes(range(1, 9)), 1, 32)
+    if not vec:
+        bad.append({'vector': 'aes-256 / md5 / password'})
+    return {'name': 'C15.pbe._pbkdf1#bounded(evp-bytestokey-recurrence)', 'cases': cases, 'violations': bad}
+
+
 def cipher_block_sizes_lemma():
     """the finite split of the OpenSSH container block size rests on the registered cipher table (read as data)"""
     import ast
@@ -1193,7 +1236,8 @@ def wrap_width_lemmas():
 
 def extra_checks(tier, seed):
     return {'lemmas': [cipher_block_sizes_lemma()] + wrap_width_lemmas() + rfc1423_round_trip_lemma(),
-            'bounded': [bounded_armour(tier), bounded_mpint(tier), bounded_text_round_trip(tier)] + bounded_der(tier)}
+            'bounded': [bounded_armour(tier), bounded_mpint(tier), bounded_text_round_trip(tier), bounded_pbkdf1(tier)]
+            + bounded_der(tier)}
 
 
 # ====================================================================== _match_next: format sniffing
